@@ -26,7 +26,7 @@ from ..runner import Acc, parallel
 from ..values import ZOO, cp, perturb
 
 LEAVES = [None, True, False, 0, 1, -7, 2 ** 70, 0.0, 1.5, 2.5e-12, "", "a", b"", b"a", M.FIX_UUID,
-          M.FIX_DT, M.FIX_DATE]
+          M.FIX_DT, M.FIX_DATE, float("inf"), float("-inf")]
 NONPLAIN = [decimal.Decimal("1.5"), fractions.Fraction(1, 3), complex(1, 2), (1, 2), (), {1, 2},
             frozenset([1]), bytearray(b"ab"), range(3), NAMED["memoryview"],
             uuid.UUID("51c2f442-bf61-11f1-b9da-02fc00000001"), uuid.uuid5(uuid.NAMESPACE_DNS, "x"),
@@ -193,7 +193,7 @@ def run(tier, seed):
         "bounds": {"tier": tier, "leaves": len(LEAVES), "nonplain_kinds": len(NONPLAIN)},
     }
     return acc, cov, ["True/False identified with 1/0; floats within math.isclose tolerance",
-                      "nan and inf are not among the leaves"]
+                      "nan is not among the leaves (a pinned nan accepts nothing by IEEE comparison)"]
 
 
 def replay(case):
